@@ -3,6 +3,7 @@ use crate::{
         atomic_iter::{AtomicIter, AtomicIterWithInitialLen},
         buffered::{
             array::BufferedArray, buffered_chunk::BufferedChunk, buffered_iter::BufferedIter,
+            raw_chunk::RawChunk,
         },
     },
     next::NextChunk,
@@ -60,8 +61,7 @@ impl<const N: usize, T: Send + Sync> ConIterOfArray<N, T> {
         let len = end_idx - begin_idx;
 
         let ptr = array.as_mut_ptr().add(begin_idx);
-        let vec = Vec::from_raw_parts(ptr, len, 0);
-        vec.into_iter()
+        RawChunk::new(ptr, len)
     }
 
     unsafe fn split_off_right(&self, left_len: usize) -> Vec<T> {
